@@ -25,6 +25,7 @@ structure Node where
   optional : Bool := false
   nilable : Bool := false
   composite : Bool := false  -- `isCompositeType(internals.Type)`
+  nilType : Bool := false    -- `internals.Type == ZodTypeNil` (a Nilable Nil schema gets no `anyOf`, hence no place for the `$ref`)
   isLazy : Bool := false
   kids : List Nat := []      -- the sub-schemas handed to `c.convert` by the type's converter (Lazy: the inner schema)
 
@@ -81,7 +82,10 @@ def stepRegister (o : Opts) (nd : Node) (st : St) : St :=
     `$ref: #/$defs/<id>`. -/
 def stepId (nd : Node) (st : St) : St :=
   match nd.id with
-  | some i => ({ st with defs := if st.defs.contains i then st.defs else i :: st.defs }).emit i
+  | some i =>
+      let st' : St := { st with defs := if st.defs.contains i then st.defs else i :: st.defs }
+      -- Nilable: `placeholder.AnyOf[0]` becomes the `$ref` — when there is an `anyOf` (not for a Nil schema)
+      if nd.nilable && nd.nilType then st' else st'.emit i
   | none => st
 
 /-- automatic hoisting of a schema met more than once under Reused:"ref". -/
